@@ -1,6 +1,7 @@
 package main
 
 import (
+	"bytes"
 	"compress/gzip"
 	"context"
 	"encoding/base64"
@@ -66,6 +67,87 @@ type e2eScenario struct {
 	Echo      bool              `json:"echo"`   // bidi: the handler echoes; the client sends and receives concurrently
 	Peer      string            `json:"peer"`   // "server": the real client talks to the reference codec's conformant server
 	Choices   *refcodec.Choices `json:"choices"`
+	// Peer == "client": the reference codec's conformant client talks to the real handler
+	RChoices *refcodec.ReqChoices `json:"rchoices"`
+}
+
+// encodeMsg is decodeMsg's inverse: a BytesValue in the scenario's codec, written by the reference codec.
+func encodeMsg(codec string, v []byte) []byte {
+	if codec == "json" {
+		b, _ := json.Marshal(base64.StdEncoding.EncodeToString(v))
+		return b
+	}
+	return refcodec.WrapBytes(v)
+}
+
+// peerClientCall performs the exchange as a conformant foreign client and reports what that client decodes.
+func peerClientCall(sc *e2eScenario, st *e2eState, sid string, httpClient connect.HTTPClient, url string) (ids []int, ev map[string]any, ok bool, hdr, trl http.Header) {
+	unary := sc.Kind == "unary" && sc.Proto == "connect"
+	var msgs [][]byte
+	for _, m := range sc.Req {
+		msgs = append(msgs, encodeMsg(sc.Codec, st.payload(m).Value))
+	}
+	app := http.Header{}
+	app.Set("X-Verif-Sid", sid)
+	addAll(app, sc.ReqHdr)
+	// the algorithms this client reads, most preferred first (what the real client would advertise)
+	all := append([]string{"gzip"}, sc.Cacc...)
+	var accept []string
+	seen := map[string]bool{}
+	for i := len(all) - 1; i >= 0; i-- {
+		if !seen[all[i]] {
+			seen[all[i]] = true
+			accept = append(accept, all[i])
+		}
+	}
+	rc := refcodec.ReqChoices{}
+	if sc.RChoices != nil {
+		rc = *sc.RChoices
+	}
+	rc.Encoding = ""
+	if sc.Csend != "" && sc.Csend != "none" && sc.Csend != "identity" {
+		rc.Encoding = sc.Csend
+	}
+	header, body := refcodec.EncodeRequest(sc.Proto, unary, sc.Codec, msgs, app, accept, rc)
+	req, _ := http.NewRequest(http.MethodPost, url, bytes.NewReader(body))
+	req.Header = header
+	ev = map[string]any{"code": 0, "msg": "", "details": []string{}, "meta": map[string][]string{}, "eof": false}
+	resp, err := httpClient.Do(req)
+	if err != nil {
+		ev["code"], ev["msg"] = 14, "corrupt:transport"
+		return []int{}, ev, false, http.Header{}, http.Header{}
+	}
+	raw, _ := io.ReadAll(resp.Body)
+	_ = resp.Body.Close()
+	d := refcodec.ParseResponse(sc.Proto, unary, header.Get("Content-Type"), resp.StatusCode, resp.Header, raw, resp.Trailer)
+	ids = []int{}
+	for _, p := range d.Msgs {
+		if v, good := decodeMsg(sc.Codec, p); good {
+			ids = append(ids, st.table.ID(v))
+		} else {
+			ids = append(ids, -1)
+		}
+	}
+	hdr, trl = d.Header, d.Trailer
+	if d.Err == nil && len(d.Problems) == 0 {
+		return ids, ev, true, hdr, trl
+	}
+	if d.Err != nil {
+		ds := []string{}
+		for _, a := range d.Err.Details {
+			ds = append(ds, classOfDetail(a.TypeURL, a.Value))
+		}
+		meta := http.Header{}
+		for _, h := range []http.Header{d.Header, d.Trailer} {
+			for k, v := range h {
+				meta[k] = append(meta[k], v...)
+			}
+		}
+		ev["code"], ev["msg"], ev["details"], ev["meta"] = d.Err.Code, classOfMsg(d.Err.Message), ds, appHeaders(meta)
+	} else {
+		ev["code"], ev["msg"] = 13, "corrupt:malformed response"
+	}
+	return ids, ev, false, hdr, trl
 }
 
 func init() { families["e2e"] = runE2E }
@@ -197,6 +279,23 @@ func appHeaders(h http.Header) map[string][]string {
 		}
 	}
 	return out
+}
+
+// unpadBin rewrites the values of -Bin keys as unpadded base64 of what `dec` decodes them to.
+func unpadBin(h map[string][]string, dec func(string) ([]byte, error)) map[string][]string {
+	for k, vs := range h {
+		if !strings.HasSuffix(k, "-Bin") {
+			continue
+		}
+		for i, v := range vs {
+			if raw, err := dec(v); err == nil {
+				vs[i] = refcodec.B64Encode(raw, false)
+			} else {
+				vs[i] = "undecodable:" + v
+			}
+		}
+	}
+	return h
 }
 
 func addAll(h http.Header, kvs []kv) {
@@ -510,7 +609,15 @@ func runE2E(raw json.RawMessage, seed int64, rec *Rec) {
 		h.Set("X-Verif-Sid", sid)
 		addAll(h, sc.ReqHdr)
 	}
-	switch sc.Kind {
+	var peerErr map[string]any
+	peerOK := false
+	kindSel := sc.Kind
+	if sc.Peer == "client" {
+		kindSel = "peer-client"
+	}
+	switch kindSel {
+	case "peer-client":
+		cMsgs, peerErr, peerOK, chdr, ctrl = peerClientCall(&sc, st, sid, httpClient, url)
 	case "unary":
 		req := connect.NewRequest(st.payload(sc.Req[0]))
 		setHdr(req.Header())
@@ -667,15 +774,27 @@ func runE2E(raw json.RawMessage, seed int64, rec *Rec) {
 			addReq(f.Flag, f.Payload)
 		}
 	}
-	rec.Add(E("req", "ctype", reqCT, "enc", reqEnc, "accept", tap.ReqHeader.Get(acceptEncodingHeader(sc.Proto, unary)),
-		"frames", nz2(reqFrames), "ids", reqIDs, "hdr", appHeaders(tap.ReqHeader), "problems", reqProblems,
+	reqAccept := tap.ReqHeader.Get(acceptEncodingHeader(sc.Proto, unary))
+	reqHdrView := appHeaders(tap.ReqHeader)
+	if sc.Peer == "client" {
+		// the peer's freedoms are undone before the comparison: optional blanks in the list, padding of -Bin values
+		reqAccept = strings.ReplaceAll(reqAccept, " ", "")
+		reqHdrView = unpadBin(reqHdrView, func(v string) ([]byte, error) { return refcodec.B64Decode(v) })
+	}
+	rec.Add(E("req", "ctype", reqCT, "enc", reqEnc, "accept", reqAccept,
+		"frames", nz2(reqFrames), "ids", reqIDs, "hdr", reqHdrView, "problems", reqProblems,
 		"method", tap.ReqMethod, "te", tap.ReqHeader.Get("Te"), "served", tap.Served))
 
 	// ---- what the handler's API yielded ----
 	st.mu.Lock()
 	rec.Add(E("hneg", "ran", st.ran))
 	if st.ran > 0 {
-		rec.Add(E("hsaw", "ids", nz(st.hMsgs), "hdr", appHeaders(st.hHdr)))
+		hview := appHeaders(st.hHdr)
+		if sc.Peer == "client" {
+			// user code reads binary headers through the library's helper
+			hview = unpadBin(hview, connect.DecodeBinaryHeader)
+		}
+		rec.Add(E("hsaw", "ids", nz(st.hMsgs), "hdr", hview))
 	}
 	st.mu.Unlock()
 
@@ -740,6 +859,11 @@ func runE2E(raw json.RawMessage, seed int64, rec *Rec) {
 		default:
 			metaCall = "foreign"
 		}
+	}
+	if sc.Peer == "client" {
+		rec.Add(E("csaw", "ok", peerOK, "ids", cMsgs, "err", peerErr, "hdr", appHeaders(chdr), "trl", appHeaders(ctrl),
+			"late_ids", cMsgs, "late_msg", peerErr["msg"], "meta_call", "na"))
+		return
 	}
 	rec.Add(E("csaw", "ok", cerr == nil, "ids", cMsgs, "err", earlyErr,
 		"hdr", appHeaders(chdr), "trl", appHeaders(ctrl), "late_ids", lateIDs, "late_msg", lateErr["msg"], "meta_call", metaCall))
